@@ -92,8 +92,9 @@ def f_divvmA : Family := { f_divvm with name := "divvmA", unit := "divvmA" }
 def f_adjugateA : Family := { f_adjugate with name := "adjugateA", unit := "adjugateA" }
 def f_affinvA : Family := { f_affinv with name := "affinvA", unit := "affinvA" }
 
+def f_idet : Family := { f_det with name := "idet", unit := "idet" }
 def families : List Family :=
-  [f_det, f_inv_left, f_inv_right, f_invtr, f_divmm, f_asgdiv_m, f_divmv, f_divvm, f_adjugate, f_affinv,
+  [f_idet, f_det, f_inv_left, f_inv_right, f_invtr, f_divmm, f_asgdiv_m, f_divmv, f_divvm, f_adjugate, f_affinv,
    f_detA, f_inv_leftA, f_inv_rightA, f_invtrA, f_divmmA, f_asgdiv_mA, f_divmvA, f_divvmA, f_adjugateA, f_affinvA]
 
 end Glm.Spec.C10
